@@ -28,7 +28,8 @@ REQUIRED = ["contract:CVR.consistent_sampling", "draws_checked", "thresholds_che
             "determinism_checked", "vote_independence_checked", "draws_with_skipped_cards", "sizes:ones", "sizes:all",
             "sizes:one_exhausted", "sizes:random", "sizes:some_zero", "draws_with_a_zero_size_contest_among_positive_ones", "continued_draws_checked",
             "continued_draw_with_some_sizes_lowered_and_some_raised", "data_prefix_checked_with_cvrs_as_mvrs:ONEAUDIT",
-            "data_prefix_checked_with_cvrs_as_mvrs:CARD_COMPARISON", "vote_independence_checked:cards_sharing_identifiers", "draws_with_phantoms_selected", "cards_listing_no_contest_present", "polling_order_checked", "mismatched_sample_refused", "second_draw_same_contest_objects", "draw_after_sample_numbers_reassigned"]
+            "data_prefix_checked_with_cvrs_as_mvrs:CARD_COMPARISON", "vote_independence_checked:cards_sharing_identifiers", "draws_with_phantoms_selected", "cards_listing_no_contest_present", "polling_order_checked", "mismatched_sample_refused", "second_draw_same_contest_objects", "draw_after_sample_numbers_reassigned",
+            "two_styles_whose_joined_identifiers_read_the_same"]
 ASSUMPTIONS = ["distinct sample numbers; n_c <= number of cards listing c; dict keys equal contest ids; thresholds for "
                "n_c = 0 are unconstrained"]
 N_CASES = {"quick": 19200, "thorough": 200000}
@@ -127,6 +128,12 @@ def run_shard(spec, rec):
                         n_contests=rng.choice((1, 2, 2, 3, 4, 5)), n_cards=rng.choice((5, 8, 12, 20, 40, 80)))
         es["_sizes_seed"] = rng.randrange(10 ** 9)
         es["_sizes_mode"] = modes[i % len(modes)]
+        if len(es["contests"]) >= 3 and rng.random() < 0.25:
+            # contest identifiers are free text: "Governor", "Lt Governor" and a joint contest "Governor,Lt Governor" - the
+            # card style {Governor, Lt Governor} and the style {"Governor,Lt Governor"} are different styles
+            k = list(es["contests"])
+            E.rename_contests(es, {k[0]: "Governor", k[1]: "Lt Governor", k[2]: "Governor,Lt Governor"})
+            es["_comma_ids"] = True
         run_case(es, rec)
 
 
@@ -146,6 +153,11 @@ def run_case(es, rec):
         return
     sizes = gen_sizes(rng, sim, es.get("_sizes_mode"))
     rec.count(f"sizes:{es.get('_sizes_mode')}")
+    if es.get("_comma_ids"):
+        rec.count("contest_identifiers_containing_commas")
+        st = {frozenset(c.votes) for c in sim.cvr_list}
+        if frozenset(("Governor", "Lt Governor")) in st and frozenset(("Governor,Lt Governor",)) in st:
+            rec.count("two_styles_whose_joined_identifiers_read_the_same")
     if any(v == 0 for v in sizes.values()) and any(v > 0 for v in sizes.values()):
         rec.count("draws_with_a_zero_size_contest_among_positive_ones")
     sim.set_sizes(sizes)
